@@ -291,8 +291,10 @@ let lang_of_tree (t : Token.tok) (ps : string list) : string =
   else String.concat "|" (L.map (fun p -> if Spec.spec_match orbit t (to_str (unhex p)) then "1" else "0") ps)
 
 let cls_text (t : Token.tok) : string =
-  Printf.sprintf "stable=%d rft=%d revrange=%d" (if Spec.trees_stable t then 1 else 0)
-    (if Spec.rooted_first_tree t then 1 else 0) (if Spec.has_reversed_range t then 1 else 0)
+  let b x = if x then 1 else 0 in
+  Printf.sprintf "closedvar=%d stable=%d rft=%d revrange=%d endsep=%d fnull=%d optrep=%d" (b (Fold.depth_closed_variant t)) (b (Spec.trees_stable t))
+    (b (Spec.rooted_first_tree t)) (b (Spec.has_reversed_range t)) (b (Spec.may_end_sep t)) (b (Spec.fnull t))
+    (b (Spec.has_optional_rep t))
 
 let cmd_lang args =
   match args with
